@@ -20,12 +20,30 @@ type C08W struct {
 	// Bystanders: runtime goroutines relaying that many other lifecycle events each (pod and container
 	// state changes of unrelated objects), without a sync block, while plugins register and containers are created
 	Bystanders []int `json:"bystanders,omitempty"`
+	// TreqMs > 0: finite request timeout; the two early plugins' creation handlers take SlowMs each (less
+	// than the timeout each, more together), so that a sync block is held for longer than one request
+	// timeout while plugins wait to be synchronized - which must not count against them
+	TreqMs int `json:"treq_ms,omitempty"`
+	SlowMs int `json:"slow_ms,omitempty"`
 }
 
 func c08Gen(rng *rand.Rand, conf string, idx int) any {
 	w := &C08W{Early: rng.Intn(2), Late: 1 + rng.Intn(4), Pre: rng.Intn(3)}
 	for k, n := 0, 1+rng.Intn(3*deep(conf)); k < n; k++ {
 		w.Creators = append(w.Creators, 1+rng.Intn(4*deep(conf)))
+	}
+	if rng.Intn(5) == 0 {
+		w.Early, w.TreqMs = 2, pick(rng, []int{400, 500})
+		w.SlowMs = w.TreqMs * 6 / 10
+		w.FailSync = nil
+		// (kept short: the stub's own registration timeout of 5 s must not be reached while the
+		// registrations queue up behind the slow creations)
+		w.Late = 1 + rng.Intn(2)
+		w.Creators = []int{1 + rng.Intn(2)}
+		if rng.Intn(2) == 0 {
+			w.Creators = append(w.Creators, 1)
+		}
+		return w
 	}
 	if rng.Intn(3) == 0 {
 		for k, n := 0, 1+rng.Intn(2); k < n; k++ {
@@ -46,10 +64,12 @@ func c08Run(t *testing.T, wl any, sc SchedCfg) *Result {
 	w := wl.(*C08W)
 	return Bubble(t, sc, func(e *Env) {
 		res := e.Res
-		treq, treg := 2*time.Second, 5*time.Second
-		h := NewH1(e, hugeTimeout, hugeTimeout)
-		_ = treq
-		_ = treg
+		treq := hugeTimeout
+		if w.TreqMs > 0 {
+			treq = time.Duration(w.TreqMs) * time.Millisecond
+			res.Probe("C08.block-held-longer-than-the-request-timeout")
+		}
+		h := NewH1(e, treq, hugeTimeout)
 		pod := &api.PodSandbox{Id: "pod0", Name: "pod0"}
 		h.Pods = []*api.PodSandbox{pod}
 		for i := 0; i < w.Pre; i++ {
@@ -85,6 +105,9 @@ func c08Run(t *testing.T, wl any, sc SchedCfg) *Result {
 		h.Script = func(plugin, rpc, token string) *Reply {
 			if rpc == "Synchronize" && failing[plugin] {
 				return &Reply{Err: "plugin " + plugin + " cannot synchronize"}
+			}
+			if w.SlowMs > 0 && rpc == "CreateContainer" && (plugin == names[0] || plugin == names[1]) {
+				return &Reply{SleepMs: w.SlowMs}
 			}
 			return nil
 		}
